@@ -240,7 +240,56 @@ pub fn eval(case: &Case) -> (Vec<Violation>, bool, Option<String>) {
     (vs, true, unparsable)
 }
 
+/// Through the real binary with the table in a configuration FILE (the loaders are not on the
+/// in-process path): a key and a spelling of the mapped type in the sources; no generated file may
+/// mention the mapped name.
+pub fn eval_cli(key: &str, spelling: &str, zod: bool, tauri_conf: bool) -> Vec<Violation> {
+    use crate::sbx::{self, FileCfg, RunOpts, Seam};
+    let src = format!(
+        "{}use tauri::ipc::Channel;\nuse tauri::{{AppHandle, Emitter}};\n#[derive(Serialize, Deserialize)]\npub struct Holder {{ pub f: {sp}, pub many: Vec<{sp}>, pub opt: Option<{sp}>, pub by: HashMap<String, {sp}> }}\n#[tauri::command]\npub fn cmd(p: {sp}, h: Holder, ch: Channel<{sp}>) -> Vec<{sp}> {{ todo!() }}\npub fn fire(app: &AppHandle, e: {sp}) {{ app.emit(\"ev\", e).unwrap(); }}\n",
+        gen::PRELUDE,
+        sp = spelling
+    );
+    let cfg = FileCfg { zod, type_mappings: vec![(key.to_string(), "string".to_string())], ..Default::default() };
+    let sb = crate::run::Sandbox::new();
+    sbx::write_sources(&sb.root, &gen::Project::single(src), &cfg);
+    if tauri_conf {
+        let _ = std::fs::remove_file(sb.root.join("typegen.json"));
+        std::fs::write(sb.root.join("tauri.conf.json"), cfg.to_tauri_conf_json()).unwrap();
+    }
+    let r = sbx::run_generate(&sb.root, Seam::Cli, &RunOpts { discover_config: tauri_conf, ..Default::default() });
+    if !r.success() {
+        return vec![];
+    }
+    let files = crate::run::read_out_dir(&sbx::out_dir(&sb.root, &cfg));
+    // identifiers of the key (head and generic arguments) that nothing else in the project uses
+    let idents: Vec<String> = key.split(|c: char| !(c.is_alphanumeric() || c == '_')).filter(|w| !w.is_empty() && !["i64", "String"].contains(w)).map(|w| w.to_string()).collect();
+    let mut vs = vec![];
+    for (f, text) in &files {
+        if !f.ends_with(".ts") {
+            continue;
+        }
+        let code: String = text.lines().filter(|l| !l.trim_start().starts_with('*') && !l.trim_start().starts_with("/*") && !l.trim_start().starts_with("//")).collect::<Vec<_>>().join("\n");
+        let left: Vec<&String> = idents.iter().filter(|n| ident_occurs(&code, n) || ident_occurs(&code, &format!("{}Schema", n))).collect();
+        if !left.is_empty() {
+            vs.push(
+                Violation::new("C18", "mapped-name-survives", format!("mapping {:?} -> string given in {} ({} mode), type spelled `{}` in the sources: {} still mentions {:?}", key, if tauri_conf { "tauri.conf.json" } else { "typegen.json" }, if zod { "zod" } else { "none" }, spelling, f, left), json!({"cli": {"key": key, "spelling": spelling, "zod": zod, "tauri_conf": tauri_conf}}))
+                    .field("site", "all")
+                    .field("mode", if zod { "zod" } else { "none" })
+                    .field("mapped", key.to_string())
+                    .field("targets", "string")
+                    .field("spelling", spelling.to_string()),
+            );
+            break;
+        }
+    }
+    vs
+}
+
 pub fn replay(case: &Value) -> Vec<Violation> {
+    if let Some(c) = case.get("cli") {
+        return eval_cli(c["key"].as_str().unwrap_or(""), c["spelling"].as_str().unwrap_or(""), c["zod"].as_bool().unwrap_or(false), c["tauri_conf"].as_bool().unwrap_or(false));
+    }
     serde_json::from_value::<Case>(case.clone()).map(|c| eval(&c).0).unwrap_or_default()
 }
 
@@ -294,6 +343,23 @@ pub fn run(tier: Tier) -> CheckResult {
             cases.push(Case { site: s.name().into(), ty: RTy::Tuple(vec![RTy::named("Uuid"), RTy::named("Other")]), mappings: vec![("Uuid".into(), "string".into()), ("Oth".into(), "number".into()), ("OtherX".into(), "number".into())], zod });
         }
     }
+    // the same table through configuration files and the real binary: keys with one and with several
+    // generic arguments, and the mapped type spelled with module paths (ASCII and not) in the sources
+    let cli_cases: Vec<(&str, &str)> = vec![
+        ("Uuid", "Uuid"),
+        ("Uuid", "crate::ids::Uuid"),
+        ("Uuid", "données::Uuid"),
+        ("Uuid", "モデル::ids::Uuid"),
+        ("PathBuf", "std::path::PathBuf"),
+        ("DateTime<Utc>", "DateTime<Utc>"),
+        ("DateTime<Utc>", "chrono::DateTime<Utc>"),
+        ("Tagged<InvoiceTag, Uuid7>", "Tagged<InvoiceTag, Uuid7>"),
+        ("Fixed<i64, U6>", "Fixed<i64, U6>"),
+        ("Triple<A1, B2, C3>", "Triple<A1, B2, C3>"),
+    ];
+    let cli_work: Vec<(&str, &str, bool, bool)> = cli_cases.iter().flat_map(|(k, sp)| [(*k, *sp, false, false), (*k, *sp, true, false), (*k, *sp, false, true), (*k, *sp, true, true)]).collect();
+    let cli_v: Vec<Violation> = cli_work.par_iter().flat_map(|(k, sp, z, t)| eval_cli(k, sp, *z, *t)).collect();
+    res.coverage.set("cli_file_cases", cli_work.len() as u64);
     let results: Vec<Option<(Vec<Violation>, bool, Option<String>)>> = cases.par_iter().map(|c| if deadline.passed() { None } else { Some(eval(c)) }).collect();
     let mut evaluations = 0u64;
     let mut exhaustive = true;
@@ -319,6 +385,7 @@ pub fn run(tier: Tier) -> CheckResult {
         }
     }
     all_v.sort_by_key(|(_, v)| (v.rank, v.key()));
+    res.violations.extend(cli_v);
     let mut seen = BTreeSet::new();
     for (c, v) in all_v {
         if c.ty.children().iter().any(|ch| failing.contains(&(c.site.clone(), c.zod, (*ch).clone(), v.class.clone(), v.fields["mapped"].clone()))) {
